@@ -25,7 +25,34 @@ def snapshot(t):
     return {k: t.get_ndata(k).copy() for k in COLS}
 
 
+# ---- the vocabulary of pipeline steps -------------------------------------------------------------------------------------------------------
+# A step is a string `base[|flag]*`, fully chosen by `cases` (only numeric arguments are drawn in `run`, from the case's own seed):
+#   <unary op>[|keep]             one tree in, one tree out; `keep`: the result is checked, the pipeline goes on FROM THE INPUT (the same tree
+#                                 object is handed to a second operation afterwards)
+#   cat|<operand>[|swap][|keep]   cat_tree(current, operand) - or cat_tree(operand, current) with `swap`; <operand> says where the other tree
+#                                 comes from (CAT_OPERANDS)
+#   query|<kind>                  a read-only use of the current tree between two operations (not an operation of the property: nothing is
+#                                 checked about it; it is there because a tree that has been looked at is still a well-formed tree, and the
+#                                 property quantifies over every call history)
+UNARY = ["sort", "subtree", "nodesubtree", "tosub", "cutenter", "cutleave", "redirect", "redirect-nosort", "cuttype", "cutorder", "cuttip",
+         "translate", "scale", "rotate", "rotx", "roty", "rotz", "affine", "origin", "normalize", "radius", "smooth", "resample", "roundtrip",
+         "compose", "copy"]
 PRUNERS = ["tosub", "tosub", "cutleave", "cuttip", "cuttype", "cutorder"]
+QUERIES = ["children", "branches", "paths", "tips", "neurites", "nodebranch", "length", "traverse"]
+# where the second tree of cat_tree comes from: built on the spot; built and then looked at; built and handed to another operation first;
+# a copy / geometric transform of a tree that was looked at; the current tree itself; any earlier tree of this pipeline
+CAT_OPERANDS = ["fresh", "queried", "used", "derived", "self", "earlier"]
+DERIVERS = ["copy", "translate", "scale", "rotx", "rotate", "origin", "radius"]      # operations that keep every node: "the same neuron, moved"
+SORTED_OUT = ("sort", "redirect", "cat", "sort-after-nosort")
+
+
+def rand_step(rng):
+    u = rng.random()
+    if u < 0.12:
+        return "query|" + rng.choice(QUERIES)
+    if u < 0.24:
+        return "cat|" + rng.choice(CAT_OPERANDS) + ("|swap" if rng.random() < 0.35 else "") + ("|keep" if rng.random() < 0.15 else "")
+    return rng.choice(UNARY) + ("|keep" if rng.random() < 0.15 else "")
 
 
 def make_ops(rng, length):
@@ -33,9 +60,173 @@ def make_ops(rng, length):
     if rng.random() < 0.5:      # prune the freshly built (arbitrarily numbered) tree first: numbering-sensitive code sees an unsorted table
         ops.append(rng.choice(PRUNERS))
     for _ in range(length):
-        ops.append(rng.choice(["sort", "subtree", "tosub", "cutenter", "cutleave", "redirect", "redirect-nosort", "cat", "cuttype", "cutorder", "cuttip",
-                               "translate", "scale", "rotate", "rotx", "origin", "normalize", "radius", "smooth", "resample", "roundtrip", "compose", "copy"]))
+        ops.append(rand_step(rng))
     return ops
+
+
+def pair_steps():
+    """every step that can stand first x every step that can stand second (see Pipeline.cases)"""
+    firsts = UNARY + ["query|" + q for q in QUERIES] + ["cat|fresh"] + [u + "|keep" for u in ("cuttip", "cutorder", "redirect-nosort", "sort", "rotate", "copy")]
+    seconds = UNARY + ["cat|" + m + s for m in CAT_OPERANDS for s in ("", "|swap")]
+    return firsts, seconds
+
+
+class _Lib:
+    pass
+
+
+def lib():
+    if not hasattr(_Lib, "Tree"):
+        from swcgeom.core import Tree
+        from swcgeom.core.tree_utils import cat_tree, cut_tree, get_subtree, redirect_tree, sort_tree, to_subtree
+        from swcgeom.transforms import (AffineTransform, CutByFurcationOrder, CutByType, CutShortTipBranch, IsometricResampler, Normalizer, RadiusReseter,
+                                        Rotate, RotateX, RotateY, RotateZ, Scale, Transforms, Translate, TranslateOrigin, TreeSmoother)
+        for k, v in list(locals().items()):
+            setattr(_Lib, k, v)
+    return _Lib
+
+
+def query(t, kind, rng):
+    """read-only use of a tree; whatever it does or raises is not this property's business"""
+    n = t.number_of_nodes()
+    k = rng.randrange(n)
+    try:
+        if kind == "children":
+            [[int(c.id) for c in nd.children()] for nd in t]
+        elif kind == "branches":
+            t.get_branches()
+        elif kind == "paths":
+            t.get_paths()
+        elif kind == "tips":
+            t.get_tips(); t.get_furcations()
+        elif kind == "neurites":
+            list(t.get_neurites(type_check=False)); list(t.get_dendrites(type_check=False))
+        elif kind == "nodebranch":
+            t.node(k).branch()
+        elif kind == "length":
+            t.length()
+        else:
+            t.traverse(enter=lambda nd, pv: 0); t.traverse(leave=lambda nd, ks: 0)
+    except Exception as e:  # noqa: BLE001
+        return type(e).__name__
+    return None
+
+
+def apply_unary(op, cur, rng, info, legacy=False):
+    """apply one one-tree operation with arguments drawn from rng; returns (result, position the root must keep | None), or None when the
+    operation's own precondition does not hold for this tree (then nothing is called)"""
+    L = lib()
+    n = cur.number_of_nodes()
+    nosort_root = None
+    info["arg"] = None
+    if op == "sort":
+        y = L.sort_tree(cur)
+    elif op == "subtree":
+        info["arg"] = rng.randrange(n); y = L.get_subtree(cur, info["arg"])
+    elif op == "nodesubtree":
+        info["arg"] = rng.randrange(n); y = cur.node(info["arg"]).subtree()
+    elif op == "tosub":
+        inner = sorted({int(p) for p in cur.pid() if p > 0})        # prefer nodes that have something below them
+        pool = inner if inner and rng.random() < 0.7 else list(range(1, n))
+        info["arg"] = rng.sample(pool, min(len(pool), rng.randint(0, 3))) if n > 1 else []
+        y = L.to_subtree(cur, info["arg"])
+    elif op == "cutenter":
+        d = rng.randint(1, 4); info["arg"] = d
+        y = L.cut_tree(cur, enter=lambda nd, pv: ((0 if pv is None else pv + 1), (0 if pv is None else pv + 1) >= d))
+    elif op == "cutleave":
+        hcut = rng.choice([0, 1, 2]); info["arg"] = hcut
+        y = L.cut_tree(cur, leave=lambda nd, ks: (max([x + 1 for x in ks], default=0), (max([x + 1 for x in ks], default=0) == hcut and nd.id != 0 and nd.id % 2 == 0)))
+    elif op in ("redirect", "redirect-nosort"):
+        info["arg"] = rng.randrange(n); y = L.redirect_tree(cur, info["arg"], sort=(op == "redirect"))
+        if op == "redirect-nosort":
+            nosort_root = info["arg"]
+    elif op == "cuttype":
+        info["arg"] = int(rng.choice(sorted(set(int(v) for v in cur.type())))); y = L.CutByType(info["arg"])(cur)
+    elif op == "cutorder":
+        info["arg"] = rng.randint(1, 3); y = L.CutByFurcationOrder(info["arg"])(cur)
+    elif op == "cuttip":
+        # thresholds on the scale of the tree itself (just above one of its segment lengths, above all of them) next to fixed ones, so that
+        # both "nothing is short enough" and "some twigs go" happen
+        xyz, pid = cur.xyz().astype(np.float64), cur.pid()
+        seg = [float(np.linalg.norm(xyz[i] - xyz[int(pid[i])])) for i in range(n) if 0 <= int(pid[i]) < n]
+        seg = [s for s in seg if np.isfinite(s)]
+        cand = [0.5, 2.0, 10.0] + ([1.01 * rng.choice(seg) + 1e-3, 1.5 * max(seg) + 1e-3, 1.5 * max(seg) + 1e-3] if seg and not legacy else [])
+        info["arg"] = float(rng.choice(cand)); y = L.CutShortTipBranch(thre=info["arg"])(cur)
+    elif op == "translate":
+        y = L.Translate(rng.randint(-9, 9), rng.randint(-9, 9), 1.5)(cur)
+    elif op == "scale":
+        y = L.Scale(2.0, 0.5, 3.0, center=rng.choice(["root", "origin"]))(cur)
+    elif op == "rotate":
+        y = L.Rotate(np.array([0.6, 0.0, 0.8]), rng.uniform(-3, 3), center=rng.choice(["root", "origin"]))(cur)
+    elif op in ("rotx", "roty", "rotz"):
+        y = {"rotx": L.RotateX, "roty": L.RotateY, "rotz": L.RotateZ}[op](rng.uniform(-3, 3))(cur)
+    elif op == "affine":
+        # a generic invertible affine map given the way a user writes one: an ordinary numpy matrix (float64), sometimes float32
+        m = np.eye(4)
+        for i in range(3):
+            m[i, i] = rng.choice([0.5, 1.0, 2.0, -1.0])
+            for j in range(i):
+                m[i, j] = rng.choice([0.0, 0.0, 0.5, -1.0])
+            m[i, 3] = rng.randint(-9, 9)
+        dt = rng.choice(["float64", "float64", "float32"])
+        info["arg"] = dt
+        y = L.AffineTransform(m.astype(dt), center=rng.choice(["origin", "root"]))(cur)
+    elif op == "origin":
+        y = L.TranslateOrigin()(cur)
+    elif op == "normalize":
+        # Normalizer divides every column by its maximum: a column whose maximum is 0 is outside its domain
+        if any(float(np.max(cur.get_ndata(c))) == 0 or not np.all(np.isfinite(cur.get_ndata(c))) for c in ("x", "y", "z", "r")):
+            return None
+        if legacy and (n < 2 or any(float(np.max(cur.get_ndata(c))) <= 0 for c in ("x", "y", "z", "r"))):
+            return None
+        y = L.Normalizer()(cur)
+    elif op == "radius":
+        y = L.RadiusReseter(0.75)(cur)
+    elif op == "smooth":
+        info["arg"] = rng.choice([3, 5]); y = L.TreeSmoother(info["arg"])(cur)
+    elif op == "resample":
+        # the resampler starts from `tree.soma()` (type-checked) and needs distinct, finite node positions
+        if n < 2 or len(set(map(tuple, cur.xyz().tolist()))) < n or int(cur.type()[0]) != 1 or not np.all(np.isfinite(cur.xyz())):
+            return None
+        info["arg"] = rng.choice([0.5, 2.0, 7.0])
+        if not legacy:      # keep the result to a few thousand nodes: a spacing far below the tree's scale only makes the same case bigger
+            xyz, pid = cur.xyz().astype(np.float64), cur.pid()
+            total = sum(float(np.linalg.norm(xyz[i] - xyz[int(pid[i])])) for i in range(n) if 0 <= int(pid[i]) < n)
+            info["arg"] = max(info["arg"], total / 2000.0)
+        y = L.IsometricResampler(info["arg"])(cur)
+    elif op == "roundtrip":
+        y = L.Tree.from_swc(io.StringIO(cur.to_swc()))
+    elif op == "compose":
+        y = L.Transforms(L.Translate(1, 2, 3), L.RadiusReseter(1.25), L.TranslateOrigin())(cur)
+    elif op == "copy":
+        y = cur.copy()
+    else:
+        raise ValueError(f"unknown step {op}")
+    return y, nosort_root
+
+
+def make_operand(mode, cur, pool, rng, info, legacy=False):
+    """the other tree of a cat_tree step"""
+    if mode in ("self", "earlier"):
+        other = cur if mode == "self" else rng.choice(pool)
+        info["other_pids"] = other.pid().tolist()
+        return other
+    t2 = gen.tree_case(rng, rng.choice([1, 2, 4, 7] if not legacy else [1, 2, 4]), gen.pick_shape(rng, rng.randrange(9)), numbering="root0" if legacy else rng.choice(["root0", "root0", "sorted"]), coords="dyadic")
+    if not legacy:
+        t2["xyz"] = [[c / 16.0 for c in p] for p in t2["xyz"]]      # the scale of the pipeline's own trees
+    other = gen.make_tree(t2)
+    info["other_pids"] = t2["pids"]
+    if mode == "queried":
+        for kind in rng.sample(QUERIES, 2):
+            query(other, kind, rng)
+    elif mode == "used":            # the operand was the input of another operation before (whose result is not used)
+        info["arg"] = "while preparing the operand"
+        apply_unary(rng.choice(UNARY), other, rng, {})
+    elif mode == "derived":         # a moved copy of a tree that was looked at
+        query(other, rng.choice(QUERIES), rng)
+        info["arg"] = "while preparing the operand"
+        other = apply_unary(rng.choice(DERIVERS), other, rng, {})[0]
+    return other
 
 
 class Pipeline(Suite):
@@ -46,120 +237,110 @@ class Pipeline(Suite):
         out = []
         big = tier == "thorough" or widen
         k = 0
+        # (1) random pipelines
         for n in [1, 2, 3, 5, 8, 13, 21] + ([60] if big else []):
             for _ in range(9 if not big else 24):
                 shape = gen.pick_shape(rng, k); k += 1
                 t = gen.tree_case(rng, n, shape, numbering=rng.choice(["sorted", "root0", "root0", "root0"]), coords="dyadic", types="mixed")
                 t["xyz"] = [[c / 16.0 for c in p] for p in t["xyz"]]
-                out.append({"class": shape, "tree": t, "ops": make_ops(rng, rng.randint(2, 8 if not big else 30)), "seed": rng.randrange(10**6)})
+                out.append({"class": shape, "family": "random", "v": 2, "tree": t, "ops": make_ops(rng, rng.randint(2, 8 if not big else 30)), "seed": rng.randrange(10**6)})
+        # (2) every operation on the result of every operation (and on a tree that was looked at / already used / given as either operand of
+        #     a concatenation): what one call leaves behind - column dtypes and layouts other than the constructor's, anything remembered on
+        #     the tree object - is what the next call starts from. Two-step pipelines, so a failing input is as small as it gets.
+        firsts, seconds = pair_steps()
+        for rep in range(1 if not big else 3):
+            for a in firsts:
+                for b in seconds:
+                    shape = gen.pick_shape(rng, k); k += 1
+                    if shape in ("single", "two"):
+                        shape = "random"
+                    n = rng.choice([5, 6, 7, 9]) if rep == 0 else rng.choice([3, 4, 12, 20])
+                    t = gen.tree_case(rng, n, shape, numbering=rng.choice(["sorted", "root0", "root0"]), coords="dyadic", types="mixed")
+                    t["xyz"] = [[c / 16.0 for c in p] for p in t["xyz"]]
+                    out.append({"class": shape, "family": "pair", "v": 2, "tree": t, "ops": [a, b], "seed": rng.randrange(10**6)})
         return out
 
     def run(self, case):
         import random as _r
-        from swcgeom.core import Tree
-        from swcgeom.core.tree_utils import cat_tree, cut_tree, get_subtree, redirect_tree, sort_tree, to_subtree
-        from swcgeom.transforms import (CutByFurcationOrder, CutByType, CutShortTipBranch, IsometricResampler, Normalizer, RadiusReseter, Rotate, RotateX,
-                                        Scale, Transforms, Translate, TranslateOrigin, TreeSmoother)
+        from harness.framework import CaseTimeout
 
+        L = lib()
         rng = _r.Random(case["seed"])
+        legacy = case.get("v", 1) < 2          # stored cases of earlier rounds keep the arguments they were stored with
         cur = gen.make_tree(case["tree"])
+        pool = [cur]                  # every well-formed tree of this pipeline so far (inputs and results)
         steps = []
+        info = {"arg": None}
         with warnings.catch_warnings():
             warnings.simplefilter("ignore")
-            for op in case["ops"]:
-                n = cur.number_of_nodes()
-                before = snapshot(cur)
-                other = None
-                arg = None
-                nosort_root = None
-                if op == "sort":
-                    y = sort_tree(cur)
-                elif op == "subtree":
-                    arg = rng.randrange(n); y = get_subtree(cur, arg)
-                elif op == "tosub":
-                    inner = sorted({int(p) for p in cur.pid() if p > 0})        # prefer nodes that have something below them
-                    pool = inner if inner and rng.random() < 0.7 else list(range(1, n))
-                    arg = rng.sample(pool, min(len(pool), rng.randint(0, 3))) if n > 1 else []
-                    y = to_subtree(cur, arg)
-                elif op == "cutenter":
-                    d = rng.randint(1, 4); arg = d
-                    y = cut_tree(cur, enter=lambda nd, pv: ((0 if pv is None else pv + 1), (0 if pv is None else pv + 1) >= d))
-                elif op == "cutleave":
-                    hcut = rng.choice([0, 1, 2])
-                    y = cut_tree(cur, leave=lambda nd, ks: (max([x + 1 for x in ks], default=0), (max([x + 1 for x in ks], default=0) == hcut and nd.id != 0 and nd.id % 2 == 0)))
-                elif op in ("redirect", "redirect-nosort"):
-                    arg = rng.randrange(n); y = redirect_tree(cur, arg, sort=(op == "redirect"))
-                    if op == "redirect-nosort":
-                        nosort_root = arg
-                elif op == "cat":
-                    t2 = gen.tree_case(rng, rng.choice([1, 2, 4]), gen.pick_shape(rng, rng.randrange(9)), numbering="root0", coords="dyadic")
-                    other = gen.make_tree(t2)
-                    arg = (rng.randrange(n), rng.randrange(other.number_of_nodes()), rng.random() < 0.6)
-                    before_other = snapshot(other)
-                    y = cat_tree(cur, other, arg[0], arg[1], translate=arg[2])
-                elif op == "cuttype":
-                    arg = int(rng.choice(sorted(set(int(v) for v in cur.type())))); y = CutByType(arg)(cur)
-                elif op == "cutorder":
-                    arg = rng.randint(1, 3); y = CutByFurcationOrder(arg)(cur)
-                elif op == "cuttip":
-                    arg = rng.choice([0.5, 2.0, 10.0]); y = CutShortTipBranch(thre=arg)(cur)
-                elif op == "translate":
-                    y = Translate(rng.randint(-9, 9), rng.randint(-9, 9), 1.5)(cur)
-                elif op == "scale":
-                    y = Scale(2.0, 0.5, 3.0, center=rng.choice(["root", "origin"]))(cur)
-                elif op == "rotate":
-                    y = Rotate(np.array([0.6, 0.0, 0.8]), rng.uniform(-3, 3), center=rng.choice(["root", "origin"]))(cur)
-                elif op == "rotx":
-                    y = RotateX(rng.uniform(-3, 3))(cur)
-                elif op == "origin":
-                    y = TranslateOrigin()(cur)
-                elif op == "normalize":
-                    # Normalizer divides every column by its maximum: only meaningful when all four maxima are positive
-                    if n < 2 or any(float(np.max(cur.get_ndata(c))) <= 0 for c in ("x", "y", "z", "r")):
+            for k, op in enumerate(case["ops"]):
+                base, *flags = op.split("|")
+                info = {"arg": None}
+                try:
+                    if base == "query":
+                        query(cur, flags[0] if flags else "children", rng)
                         continue
-                    y = Normalizer()(cur)
-                elif op == "radius":
-                    y = RadiusReseter(0.75)(cur)
-                elif op == "smooth":
-                    y = TreeSmoother(rng.choice([3, 5]))(cur)
-                elif op == "resample":
-                    # the resampler starts from `tree.soma()` (type-checked) and needs distinct, finite node positions
-                    if n < 2 or len(set(map(tuple, cur.xyz().tolist()))) < n or int(cur.type()[0]) != 1 or not np.all(np.isfinite(cur.xyz())):
-                        continue
-                    y = IsometricResampler(rng.choice([0.5, 2.0, 7.0]))(cur)
-                elif op == "roundtrip":
-                    y = Tree.from_swc(io.StringIO(cur.to_swc()))
-                elif op == "compose":
-                    y = Transforms(Translate(1, 2, 3), RadiusReseter(1.25), TranslateOrigin())(cur)
-                else:
-                    y = cur.copy()
-                if not isinstance(y, Tree) and hasattr(y, "ndata"):
-                    pass
-                rec = {"op": op, "arg": arg if not isinstance(arg, tuple) else list(arg), "n_in": n, "n_out": int(y.number_of_nodes()),
-                       "id": y.id().tolist(), "pid": y.pid().tolist()}
-                rec["input_changed"] = [k for k in COLS if not np.array_equal(before[k], cur.get_ndata(k))]
+                    n = cur.number_of_nodes()
+                    before = snapshot(cur)
+                    wide_in = [c for c in COLS if cur.get_ndata(c).dtype.itemsize == 8]
+                    other = None
+                    nosort_root = None
+                    if base == "cat":
+                        other = make_operand(next((f for f in flags if f in CAT_OPERANDS), "fresh"), cur, pool, rng, info, legacy)
+                        before_other = snapshot(other)
+                        wide_in += ["other:" + c for c in COLS if other.get_ndata(c).dtype.itemsize == 8]
+                        t1, t2 = (other, cur) if "swap" in flags else (cur, other)
+                        n1, n2 = t1.number_of_nodes(), t2.number_of_nodes()
+                        node1 = n1 - 1 if not legacy and rng.random() < 0.2 else rng.randrange(n1)      # the last node: nothing is stored after it
+                        node2 = rng.randrange(1, n2) if not legacy and n2 > 1 and rng.random() < 0.5 else rng.randrange(n2)
+                        info["arg"] = [node1, node2, rng.random() < 0.6]
+                        y = L.cat_tree(t1, t2, node1, node2, translate=info["arg"][2])
+                    else:
+                        r = apply_unary(base, cur, rng, info, legacy)
+                        if r is None:
+                            continue
+                        y, nosort_root = r
+                except CaseTimeout:
+                    raise
+                except Exception as e:  # noqa: BLE001 - an operation that raises on admissible arguments did not yield a tree
+                    import traceback
+                    return {"exc": type(e).__name__, "msg": str(e)[:300], "tb": traceback.format_exc()[-1200:], "at": f"step {k} {op}({info['arg']})" + (f" with other tree pids={info['other_pids']}" if "other_pids" in info else ""),
+                            "n_in": int(cur.number_of_nodes()), "steps": steps}
+                rec = {"op": base, "flags": flags, "arg": info["arg"], "n_in": n, "n_out": int(y.number_of_nodes()), "id": y.id().tolist(), "pid": y.pid().tolist(),
+                       "wide_in": wide_in}
+                if "other_pids" in info:
+                    rec["other_pids"] = info["other_pids"]
+                rec["input_changed"] = [c for c in COLS if not np.array_equal(before[c], cur.get_ndata(c))]
                 rec["shares"] = [(a, b) for a in COLS for b in COLS if np.shares_memory(cur.get_ndata(a), y.get_ndata(b))]
                 if other is not None:
-                    rec["input_changed"] += ["other:" + k for k in COLS if not np.array_equal(before_other[k], other.get_ndata(k))]
+                    rec["input_changed"] += ["other:" + c for c in COLS if not np.array_equal(before_other[c], other.get_ndata(c))]
                     rec["shares"] += [("other:" + a, b) for a in COLS for b in COLS if np.shares_memory(other.get_ndata(a), y.get_ndata(b))]
                 rec["finite"] = bool(np.all(np.isfinite(y.xyz())) and np.all(np.isfinite(y.r())))
                 rec["nosort_root"] = nosort_root
                 steps.append(rec)
+                if "keep" in flags:           # the result has been recorded; the same input object goes into the next step
+                    if y.number_of_nodes() > 0 and not (nosort_root is not None and nosort_root != 0):
+                        pool.append(y)
+                    continue
                 if nosort_root is not None and nosort_root != 0:
-                    y = sort_tree(y)          # continue the pipeline from a tree whose root is node 0 again
-                    steps.append({"op": "sort-after-nosort", "arg": None, "n_in": n, "n_out": int(y.number_of_nodes()), "id": y.id().tolist(), "pid": y.pid().tolist(),
-                                  "input_changed": [], "shares": [], "finite": True, "nosort_root": None})
+                    y = L.sort_tree(y)          # continue the pipeline from a tree whose root is node 0 again
+                    steps.append({"op": "sort-after-nosort", "flags": [], "arg": None, "n_in": n, "n_out": int(y.number_of_nodes()), "id": y.id().tolist(),
+                                  "pid": y.pid().tolist(), "wide_in": [], "input_changed": [], "shares": [], "finite": True, "nosort_root": None})
                 if y.number_of_nodes() == 0:
                     break
                 cur = y
+                pool.append(y)
         return {"steps": steps}
 
     def oracle(self, case, res):
         if "exc" in res:
-            return [("pipeline-raises", f"{res['exc']}: {res.get('msg')} (ops={case['ops']}, pids={case['tree']['pids']}); tb={res.get('tb', '')[-300:]}")]
+            return [("pipeline-raises", f"{res['exc']}: {res.get('msg')} at {res.get('at', '?')} on a tree of {res.get('n_in', '?')} nodes (ops={case['ops']}, "
+                                        f"pids={case['tree']['pids']}); tb={res.get('tb', '')[-300:]}")]
         out = []
         for k, st in enumerate(res["steps"]):
-            what = f"step {k} {st['op']}({st['arg']}) of {case['ops']} on pids={case['tree']['pids']}"
+            what = f"result {k}, of {'|'.join([st['op']] + st.get('flags', []))}({st['arg']}), in {case['ops']} on pids={case['tree']['pids']}"
+            if "other_pids" in st:
+                what += f" (other tree: pids={st['other_pids']})"
             ids, pids = st["id"], st["pid"]
             if st["n_out"] == 0:
                 continue
@@ -181,7 +362,7 @@ class Pipeline(Suite):
                 w = gen.well_formed(ids, pids)
                 if w is not None:
                     out.append((f"not-wellformed/{st['op']}", f"{what}: {w} (ids={ids[:10]}, pids={pids[:10]})"))
-                elif st["op"] in ("sort", "redirect", "cat", "sort-after-nosort") and any(not (p < i) for i, p in enumerate(pids)):
+                elif st["op"] in SORTED_OUT and any(not (p < i) for i, p in enumerate(pids)):
                     out.append((f"not-sorted/{st['op']}", f"{what}: documented sorted output has a parent after its child: {pids[:12]}"))
             if st["input_changed"]:
                 out.append((f"input-modified/{st['op']}", f"{what}: the input's columns {st['input_changed']} changed"))
@@ -192,16 +373,20 @@ class Pipeline(Suite):
         return out[:3]
 
     def nontrivial(self, case, res):
-        return case["tree"]["n"] >= 3 and len(case["ops"]) >= 3
+        return case["tree"]["n"] >= 3 and len(res.get("steps", [])) >= 2
 
     def klass(self, case, res):
-        return f"len{min(len(case['ops']) // 3 * 3, 12)}"
+        steps = res.get("steps", []) if isinstance(res, dict) else []
+        wide = "/f64in" if any(any(c.split(":")[-1] in "xyzr" for c in st.get("wide_in", [])) for st in steps) else ""
+        return f"{case.get('family', 'random')}/len{min(len(case['ops']) // 3 * 3, 12)}{wide}"
 
 
 SUITES = [Pipeline()]
 TECHNIQUE = ("Lean 4 theorem by induction over operation lists: each topology-level operation model (sort, subtree, prune, re-root, geometric, round trip) maps a "
              "well-formed parent list to a well-formed one (sorted where documented), built from the theorems of C05/C06/C07 and the representation lemma; heap-level "
-             "freshness from C09 + pipelines of the real operations with well-formedness, input hashes and np.shares_memory checked after every step")
+             "freshness from C09 + pipelines of the real operations with well-formedness, input hashes and np.shares_memory checked after every step: random "
+             "pipelines plus every operation applied to the result of every operation (column dtypes / anything remembered on the tree object carry over), "
+             "with read-only queries between steps, inputs handed to a second operation, and cat_tree operands that were queried / used / derived / the tree itself")
 LEVEL_TEXT = ("Kernel-checked: for every well-formed parent list and every list of the modelled operations (sort, re-root with/without sort, get_subtree, to_subtree, "
               "coordinate/radius transforms, SWC round trip), every intermediate result is well-formed — ids are positions, one root, parents valid, every node reaches the "
               "root — and sorted where the operation documents it; re-rooting without sort keeps the new root in place. Copies allocate fresh arrays (C09), so inputs are "
